@@ -2505,7 +2505,8 @@ static int verify_hme_dimension(unsigned int index, unsigned int HmeLevel0Search
     uint32_t        i;
     uint32_t        total_search_width = 0;
 
-    for (i = 0; i < number_hme_search_region_in_width; i++)
+    // the region count is reported separately when it is out of range; never walk past the array because of it
+    for (i = 0; i < number_hme_search_region_in_width && i < EB_HME_SEARCH_AREA_ROW_MAX_COUNT; i++)
         total_search_width += number_hme_search_region_in_width_array[i];
     if ((total_search_width) != (HmeLevel0SearchAreaInWidth)) {
         SVT_LOG("Error Instance %u: Summed values of HME area does not equal the total area. \n", index);
@@ -2521,7 +2522,8 @@ static int verify_hme_dimension_l1_l2(unsigned int index, uint32_t number_hme_se
     uint32_t        i;
     uint32_t        total_search_width = 0;
 
-    for (i = 0; i < number_hme_search_region_in_width; i++)
+    // the region count is reported separately when it is out of range; never walk past the array because of it
+    for (i = 0; i < number_hme_search_region_in_width && i < EB_HME_SEARCH_AREA_ROW_MAX_COUNT; i++)
         total_search_width += number_hme_search_region_in_width_array[i];
     if ((total_search_width > 480) || (total_search_width == 0)) {
         SVT_LOG("Error Instance %u: Invalid HME Total Search Area. Must be [1 - 480].\n", index);
